@@ -1,1 +1,900 @@
 //! Verification facade: `btree` (feature `verif`).
+//!
+//! Drives a real [`Btree`] over a raw [`Pager`] on a scratch file (as `tree/tests` do) with raw keys and payload
+//! bytes, and takes **page-graph dumps**: every page of the file with its kind, header links, slots, cells (decoded
+//! key, payload digest, left child, overflow chain) plus the free-list walk. The dump never goes through the tree's
+//! accessor or the cache's insert/evict path (see `Pager::verif_page_bytes`), and it parses page bytes defensively, so
+//! that it can be taken from a damaged tree as well. Also exposes the pure rebalancing helpers on size vectors.
+use crate::{
+    DBConfig,
+    io::pager::{Pager, SharedPager},
+    schema::{Column, Schema},
+    storage::{
+        cell::{CELL_HEADER_SIZE, CellHeader, OwnedCell},
+        core::traits::BtreeOps,
+        page::{BTREE_PAGE_HEADER_SIZE, BtreePage, BtreePageHeader, OVERFLOW_HEADER_SIZE, OverflowPage, OverflowPageHeader},
+        tuple::{Row, Tuple, TupleBuilder},
+    },
+    tree::{
+        accessor::{Accessor, BtreePagePosition, BtreeWriteAccessor},
+        bplustree::{Btree, BtreeError, SearchResult},
+    },
+    types::{Blob, DataType, DataTypeKind, Int64, UInt64},
+};
+use std::{
+    collections::{BTreeMap, BTreeSet, VecDeque},
+    io::{self, ErrorKind},
+    mem::offset_of,
+    path::{Path, PathBuf},
+};
+
+/// Key column layout of the tree under test. The payload is always one `Blob` value column.
+#[derive(Clone, Copy, Debug, PartialEq, Eq)]
+pub enum KeyKind {
+    /// one `BigUInt` key
+    U64,
+    /// one `BigInt` key
+    I64,
+    /// one `Blob` key (compared lexicographically on the bytes, shorter first on a tie)
+    Text,
+    /// two keys: `BigInt`, then `Blob`
+    Comp,
+}
+
+#[derive(Clone, Debug, PartialEq, Eq, PartialOrd, Ord)]
+pub enum VKey {
+    U64(u64),
+    I64(i64),
+    Text(Vec<u8>),
+    Comp(i64, Vec<u8>),
+}
+
+/// Outcome classes of a tree operation (never message text).
+#[derive(Clone, Debug, PartialEq, Eq)]
+pub enum VErr {
+    /// insert of an existing key
+    Duplicate,
+    /// update / remove of a missing key
+    NoKey,
+    /// scan of an empty tree
+    Empty,
+    /// any other error; the string is a short class (`io:<kind>`, `page-not-found`, …) and the second the message (diagnostics only)
+    Other(String, String),
+}
+
+fn classify(e: BtreeError) -> VErr {
+    match e {
+        BtreeError::Io(io) if io.kind() == ErrorKind::AlreadyExists => VErr::Duplicate,
+        BtreeError::NonExistentKey => VErr::NoKey,
+        BtreeError::BtreeEmpty => VErr::Empty,
+        BtreeError::Io(io) => VErr::Other(format!("io:{:?}", io.kind()), io.to_string()),
+        BtreeError::BtreePageNotFound(_) => VErr::Other("page-not-found".into(), e.to_string()),
+        BtreeError::BtreeUnintialized => VErr::Other("uninitialized".into(), e.to_string()),
+        BtreeError::TraversalEmpty => VErr::Other("traversal-empty".into(), e.to_string()),
+        BtreeError::InvalidIterator(_) => VErr::Other("invalid-iterator".into(), e.to_string()),
+        BtreeError::InvalidPointer(_) => VErr::Other("invalid-pointer".into(), e.to_string()),
+        BtreeError::DuplicatedKey(_) => VErr::Duplicate,
+        BtreeError::TupleReadError(_) => VErr::Other("tuple-read".into(), e.to_string()),
+        BtreeError::Other(_) => VErr::Other("other".into(), e.to_string()),
+    }
+}
+
+fn schema_for(kind: KeyKind) -> Schema {
+    match kind {
+        KeyKind::U64 => Schema::new_table(vec![
+            Column::new_with_defaults(DataTypeKind::BigUInt, "k"),
+            Column::new_with_defaults(DataTypeKind::Blob, "v"),
+        ]),
+        KeyKind::I64 => Schema::new_table(vec![
+            Column::new_with_defaults(DataTypeKind::BigInt, "k"),
+            Column::new_with_defaults(DataTypeKind::Blob, "v"),
+        ]),
+        KeyKind::Text => Schema::new_index(
+            vec![
+                Column::new_with_defaults(DataTypeKind::Blob, "k"),
+                Column::new_with_defaults(DataTypeKind::Blob, "v"),
+            ],
+            1,
+        ),
+        KeyKind::Comp => Schema::new_index(
+            vec![
+                Column::new_with_defaults(DataTypeKind::BigInt, "k1"),
+                Column::new_with_defaults(DataTypeKind::Blob, "k2"),
+                Column::new_with_defaults(DataTypeKind::Blob, "v"),
+            ],
+            2,
+        ),
+    }
+}
+
+fn key_values(key: &VKey) -> Vec<DataType> {
+    match key {
+        VKey::U64(k) => vec![DataType::BigUInt(UInt64(*k))],
+        VKey::I64(k) => vec![DataType::BigInt(Int64(*k))],
+        VKey::Text(t) => vec![DataType::Blob(Blob::from_unencoded_slice(t))],
+        VKey::Comp(a, t) => vec![DataType::BigInt(Int64(*a)), DataType::Blob(Blob::from_unencoded_slice(t))],
+    }
+}
+
+fn kind_of(key: &VKey) -> KeyKind {
+    match key {
+        VKey::U64(_) => KeyKind::U64,
+        VKey::I64(_) => KeyKind::I64,
+        VKey::Text(_) => KeyKind::Text,
+        VKey::Comp(..) => KeyKind::Comp,
+    }
+}
+
+/// 8-byte aligned copy of a byte string (the code's `deserialize` casts numeric fields in place).
+struct Aligned {
+    words: Vec<u64>,
+    len: usize,
+}
+
+impl Aligned {
+    fn zeroed(len: usize) -> Self {
+        Aligned { words: vec![0u64; len.div_ceil(8).max(1)], len }
+    }
+    fn copy_of(bytes: &[u8]) -> Self {
+        let mut a = Self::zeroed(bytes.len());
+        a.bytes_mut().copy_from_slice(bytes);
+        a
+    }
+    fn bytes(&self) -> &[u8] {
+        &bytemuck::cast_slice::<u64, u8>(&self.words)[..self.len]
+    }
+    fn bytes_mut(&mut self) -> &mut [u8] {
+        let len = self.len;
+        &mut bytemuck::cast_slice_mut::<u64, u8>(&mut self.words)[..len]
+    }
+}
+
+/// FNV-1a, 64 bit: digest of payload bytes in dumps.
+pub fn fnv64(bytes: &[u8]) -> u64 {
+    let mut h: u64 = 0xcbf29ce484222325;
+    for b in bytes {
+        h ^= *b as u64;
+        h = h.wrapping_mul(0x100000001b3);
+    }
+    h
+}
+
+// ------------------------------------------------------------------------------------------------ dump types
+
+#[derive(Clone, Debug, PartialEq, Eq)]
+pub struct CellDump {
+    pub left_child: Option<u64>,
+    /// header flag
+    pub is_overflow: bool,
+    /// pages of the overflow chain as far as it could be followed (first = the pointer stored in the cell)
+    pub overflow_chain: Vec<u64>,
+    /// the chain ended with `next = None` on pages that are overflow pages, within `total_pages` steps
+    pub chain_ok: bool,
+    /// key decoded from the (reassembled) payload, exactly the bytes the code's comparator would look at
+    pub key: Option<VKey>,
+    /// length and FNV-64 digest of the payload column decoded from the (reassembled) tuple
+    pub payload: Option<(usize, u64)>,
+    /// first two bytes of that payload column, little endian (0 padded)
+    pub payload_head: Option<u16>,
+    /// header + padded payload + slot
+    pub storage_size: usize,
+    /// offset of the cell in the page's data area
+    pub offset: usize,
+}
+
+#[derive(Clone, Debug, PartialEq, Eq)]
+pub struct BtPageDump {
+    pub right_child: Option<u64>,
+    pub next: Option<u64>,
+    pub prev: Option<u64>,
+    pub num_slots: usize,
+    pub free_space: u32,
+    pub free_space_ptr: u32,
+    /// page number stored in the header
+    pub self_id: u64,
+    /// `false` if the header / slot array / some cell does not lie inside the page (cells then holds what was parseable)
+    pub well_formed: bool,
+    pub cells: Vec<CellDump>,
+}
+
+#[derive(Clone, Debug, PartialEq, Eq)]
+pub struct OvPageDump {
+    pub self_id: u64,
+    pub next: Option<u64>,
+    pub num_bytes: u32,
+}
+
+#[derive(Clone, Debug, PartialEq, Eq)]
+pub enum PageBody {
+    Btree(BtPageDump),
+    /// overflow-chain link or free page (same on-disk shape)
+    Overflow(OvPageDump),
+    /// the bytes could not be obtained (latched, short file)
+    Unreadable(String),
+}
+
+#[derive(Clone, Debug, PartialEq, Eq)]
+pub struct PageDump {
+    pub id: u64,
+    /// kind of the cached frame: Some(0) btree, Some(1) overflow/free, None = only on disk
+    /// (then the page is parsed as btree iff a tree walk from the given roots reaches it as a node)
+    pub cached_kind: Option<u8>,
+    pub body: PageBody,
+}
+
+#[derive(Clone, Debug, PartialEq, Eq)]
+pub struct FileDump {
+    pub page_size: usize,
+    pub total_pages: u64,
+    pub first_free: Option<u64>,
+    pub last_free: Option<u64>,
+    pub free_counter: u32,
+    /// pages met following `next` from `first_free` (stops at a repeated page or after `total_pages` steps)
+    pub free_walk: Vec<u64>,
+    /// the walk ended on `next = None`
+    pub free_walk_ok: bool,
+    /// pages 1 .. total_pages-1 in order
+    pub pages: Vec<PageDump>,
+}
+
+fn read_opt_u64(bytes: &[u8], off: usize) -> Result<Option<u64>, ()> {
+    // `Option<u64>` is laid out as (tag: u64 ∈ {0,1}, value: u64); checked by `layout_self_test`.
+    if off + 16 > bytes.len() {
+        return Err(());
+    }
+    let tag = u64::from_ne_bytes(bytes[off..off + 8].try_into().unwrap());
+    let val = u64::from_ne_bytes(bytes[off + 8..off + 16].try_into().unwrap());
+    match tag {
+        0 => Ok(None),
+        1 => Ok(Some(val)),
+        _ => Err(()),
+    }
+}
+
+fn read_u32(bytes: &[u8], off: usize) -> u32 {
+    u32::from_ne_bytes(bytes[off..off + 4].try_into().unwrap())
+}
+
+fn read_u64(bytes: &[u8], off: usize) -> u64 {
+    u64::from_ne_bytes(bytes[off..off + 8].try_into().unwrap())
+}
+
+/// The manual header readers above agree with the code's own structs (run once per dump; cheap).
+pub fn layout_self_test() -> bool {
+    let mut page = BtreePage::alloc_for_test(77, 4096);
+    page.metadata_mut().right_child = Some(5);
+    page.metadata_mut().next_sibling = None;
+    page.metadata_mut().previous_sibling = Some(9);
+    let bytes: &[u8] = page.as_ref();
+    let ok1 = read_u64(bytes, offset_of!(BtreePageHeader, page_number)) == 77
+        && read_opt_u64(bytes, offset_of!(BtreePageHeader, right_child)) == Ok(Some(5))
+        && read_opt_u64(bytes, offset_of!(BtreePageHeader, next_sibling)) == Ok(None)
+        && read_opt_u64(bytes, offset_of!(BtreePageHeader, previous_sibling)) == Ok(Some(9));
+    let mut cell = OwnedCell::new(&[1, 2, 3]);
+    cell.set_left_child(Some(11));
+    let hb: &[u8] = cell.header().as_ref();
+    let ok2 = read_opt_u64(hb, CELL_LEFT_OFF) == Ok(Some(11))
+        && read_u64(hb, CELL_SIZE_OFF) as usize == cell.full_data().len()
+        && read_u32(hb, CELL_EFF_OFF) == 3
+        && hb[CELL_OVF_OFF] == 0
+        && hb.len() == CELL_HEADER_SIZE;
+    ok1 && ok2
+}
+
+// CellHeader has private fields; its layout is repr(C): left_child: Option<u64> @0, size: u64 @16, effective_size: u32 @24, is_overflow: bool @28.
+const CELL_LEFT_OFF: usize = 0;
+const CELL_SIZE_OFF: usize = 16;
+const CELL_EFF_OFF: usize = 24;
+const CELL_OVF_OFF: usize = 28;
+
+trait AllocForTest {
+    fn alloc_for_test(id: u64, size: usize) -> Self;
+}
+impl AllocForTest for BtreePage {
+    fn alloc_for_test(id: u64, size: usize) -> Self {
+        <BtreePage as crate::storage::Allocatable>::alloc(id, size)
+    }
+}
+
+// ------------------------------------------------------------------------------------------------ the tree
+
+pub struct VTree {
+    path: PathBuf,
+    pager: SharedPager,
+    tree: Btree<BtreeWriteAccessor>,
+    schema: Schema,
+    kind: KeyKind,
+}
+
+impl Drop for VTree {
+    fn drop(&mut self) {
+        let _ = std::fs::remove_file(&self.path);
+        if let Some(dir) = self.path.parent() {
+            let _ = std::fs::remove_file(dir.join("axmos.log"));
+        }
+    }
+}
+
+impl VTree {
+    /// A fresh pager on `dir/tree.db` (the directory must exist and be private to this tree: the pager also creates
+    /// `dir/axmos.log`) and an empty tree rooted at a newly allocated page.
+    pub fn create(
+        dir: &Path,
+        page_size: usize,
+        min_keys: usize,
+        siblings_per_side: usize,
+        cache_pages: usize,
+        kind: KeyKind,
+    ) -> io::Result<VTree> {
+        let path = dir.join("tree.db");
+        let _ = std::fs::remove_file(&path);
+        let _ = std::fs::remove_file(dir.join("axmos.log"));
+        let config = DBConfig {
+            page_size,
+            cache_size: cache_pages,
+            pool_size: 1,
+            num_siblings_per_side: siblings_per_side,
+            min_keys_per_page: min_keys,
+        };
+        let pager: SharedPager = Pager::from_config(config, &path)?.into();
+        let root = pager.write().allocate_page::<BtreePage>()?;
+        let tree = Btree::new(root, pager.clone(), min_keys, siblings_per_side).with_accessor(BtreeWriteAccessor::new());
+        Ok(VTree { path, pager, tree, schema: schema_for(kind), kind })
+    }
+
+    pub fn root(&self) -> u64 {
+        self.tree.get_root()
+    }
+
+    pub fn key_kind(&self) -> KeyKind {
+        self.kind
+    }
+
+    fn tuple(&self, key: &VKey, payload: &[u8]) -> Result<Tuple, VErr> {
+        if kind_of(key) != self.kind {
+            return Err(VErr::Other("key-kind".into(), "key of the wrong kind".into()));
+        }
+        let mut vals = key_values(key);
+        vals.push(DataType::Blob(Blob::from_unencoded_slice(payload)));
+        let row = Row::new(vals.into_boxed_slice());
+        TupleBuilder::from_schema(&self.schema)
+            .build(&row, 0)
+            .map_err(|e| VErr::Other("tuple-build".into(), e.to_string()))
+    }
+
+    /// The serialized key columns alone, as `Btree::search` / `Btree::remove` expect them (cursor 0).
+    fn key_bytes(&self, key: &VKey) -> Result<Aligned, VErr> {
+        if kind_of(key) != self.kind {
+            return Err(VErr::Other("key-kind".into(), "key of the wrong kind".into()));
+        }
+        let vals = key_values(key);
+        let cap: usize = vals.iter().map(|v| v.runtime_size() + 8).sum();
+        let mut buf = Aligned::zeroed(cap);
+        let mut cursor = 0;
+        for v in &vals {
+            cursor = v
+                .write_to(buf.bytes_mut(), cursor)
+                .map_err(|e| VErr::Other("key-write".into(), e.to_string()))?;
+        }
+        buf.len = cursor;
+        Ok(buf)
+    }
+
+    fn finish<T>(&mut self, r: Result<T, BtreeError>) -> Result<T, VErr> {
+        // Error paths of the tree return before clearing the accessor; the tests clear it by hand, so do we.
+        if let Ok(acc) = self.tree.accessor_mut() {
+            acc.clear();
+        }
+        r.map_err(classify)
+    }
+
+    pub fn insert(&mut self, key: &VKey, payload: &[u8]) -> Result<(), VErr> {
+        let t = self.tuple(key, payload)?;
+        let root = self.tree.get_root();
+        let r = self.tree.insert(root, t, &self.schema);
+        self.finish(r)
+    }
+
+    pub fn update(&mut self, key: &VKey, payload: &[u8]) -> Result<(), VErr> {
+        let t = self.tuple(key, payload)?;
+        let root = self.tree.get_root();
+        let r = self.tree.update(root, t, &self.schema);
+        self.finish(r)
+    }
+
+    pub fn upsert(&mut self, key: &VKey, payload: &[u8]) -> Result<(), VErr> {
+        let t = self.tuple(key, payload)?;
+        let root = self.tree.get_root();
+        let r = self.tree.upsert(root, t, &self.schema);
+        self.finish(r)
+    }
+
+    /// `Btree::remove` (serialized key bytes).
+    pub fn remove(&mut self, key: &VKey) -> Result<(), VErr> {
+        let kb = self.key_bytes(key)?;
+        let root = self.tree.get_root();
+        let r = self.tree.remove(root, kb.bytes(), &self.schema);
+        self.finish(r)
+    }
+
+    /// `Btree::remove_tuple` (a full tuple carrying the key).
+    pub fn remove_tuple(&mut self, key: &VKey) -> Result<(), VErr> {
+        let t = self.tuple(key, &[])?;
+        let root = self.tree.get_root();
+        let r = self.tree.remove_tuple(root, &t, &self.schema);
+        self.finish(r)
+    }
+
+    fn read_at(&mut self, pos: BtreePagePosition) -> Result<(VKey, Vec<u8>), VErr> {
+        let schema = &self.schema;
+        let kind = self.kind;
+        let r = self.tree.with_cell_at(pos, |bytes| decode_tuple(bytes, schema, kind));
+        match r {
+            Ok(Some(kv)) => Ok(kv),
+            Ok(None) => Err(VErr::Other("undecodable-cell".into(), format!("{pos}"))),
+            Err(e) => Err(classify(e)),
+        }
+    }
+
+    /// `Btree::search` (serialized key bytes), then the payload stored at the found position.
+    pub fn search(&mut self, key: &VKey) -> Result<Option<(VKey, Vec<u8>)>, VErr> {
+        let kb = self.key_bytes(key)?;
+        let r = self.tree.search(kb.bytes(), &self.schema);
+        let out = match r {
+            Ok(SearchResult::Found(pos)) => self.read_at(pos).map(Some),
+            Ok(SearchResult::NotFound(_)) => Ok(None),
+            Err(e) => Err(classify(e)),
+        };
+        self.finish(Ok(()))?;
+        out
+    }
+
+    /// `Btree::search_tuple` (a full tuple carrying the key).
+    pub fn search_tuple(&mut self, key: &VKey) -> Result<Option<(VKey, Vec<u8>)>, VErr> {
+        let t = self.tuple(key, &[])?;
+        let r = self.tree.search_tuple(&t, &self.schema);
+        let out = match r {
+            Ok(SearchResult::Found(pos)) => self.read_at(pos).map(Some),
+            Ok(SearchResult::NotFound(_)) => Ok(None),
+            Err(e) => Err(classify(e)),
+        };
+        self.finish(Ok(()))?;
+        out
+    }
+
+    fn collect(&mut self, backward: bool, limit: usize) -> Result<Vec<(VKey, Vec<u8>)>, VErr> {
+        let _ = self.finish(Ok(()));
+        let positions: Result<Vec<BtreePagePosition>, BtreeError> = (|| {
+            let it = if backward { self.tree.into_iter_backward()? } else { self.tree.iter_forward()? };
+            let mut v = Vec::new();
+            if backward {
+                let mut it = it;
+                while let Some(p) = it.next_back() {
+                    v.push(p?);
+                    if v.len() > limit {
+                        break;
+                    }
+                }
+            } else {
+                for p in it {
+                    v.push(p?);
+                    if v.len() > limit {
+                        break;
+                    }
+                }
+            }
+            Ok(v)
+        })();
+        let positions = match positions {
+            Ok(p) => p,
+            Err(e) => {
+                let _ = self.finish(Ok(()));
+                return Err(classify(e));
+            }
+        };
+        let mut out = Vec::with_capacity(positions.len());
+        for pos in positions {
+            let kv = self.read_at(pos);
+            let _ = self.finish(Ok(()));
+            out.push(kv?);
+        }
+        Ok(out)
+    }
+
+    /// `iter_forward()` from the left-most leaf along the sibling links; at most `limit + 1` entries are returned
+    /// (so a cyclic leaf chain shows up as an over-long result instead of a hang).
+    pub fn scan(&mut self, limit: usize) -> Result<Vec<(VKey, Vec<u8>)>, VErr> {
+        self.collect(false, limit)
+    }
+
+    /// `into_iter_backward()` consumed with `next_back()`.
+    pub fn scan_back(&mut self, limit: usize) -> Result<Vec<(VKey, Vec<u8>)>, VErr> {
+        self.collect(true, limit)
+    }
+
+    pub fn height(&mut self) -> Result<usize, VErr> {
+        let r = self.tree.height();
+        self.finish(r)
+    }
+
+    /// `Btree::dealloc` (DROP of the whole tree).
+    pub fn dealloc(&mut self) -> Result<(), VErr> {
+        let r = self.tree.dealloc();
+        self.finish(r)
+    }
+
+    /// Whole-file page-graph dump; `self.root()` is the only tree root.
+    pub fn dump(&mut self) -> FileDump {
+        let _ = self.finish(Ok(()));
+        let root = self.tree.get_root();
+        dump_file(&self.pager, &[(root, self.kind)])
+    }
+
+    /// The code's own key comparison: `search key a` against a cell holding a tuple with key `b`
+    /// (`CellComparator::compare_cell_payload`, cursor 0). `None` = the comparator returned an error.
+    pub fn compare_keys(&self, a: &VKey, b: &VKey) -> Option<std::cmp::Ordering> {
+        let cell = OwnedCell::from_tuple(self.tuple(b, &[]).ok()?);
+        let kb = self.key_bytes(a).ok()?;
+        crate::tree::cell_ops::CellComparator::new(&self.schema, self.pager.clone())
+            .compare_cell_payload(kb.bytes(), cell.as_cell_ref(), 0)
+            .ok()
+    }
+
+    pub fn pager(&self) -> SharedPager {
+        self.pager.clone()
+    }
+}
+
+fn decode_tuple(bytes: &[u8], schema: &Schema, kind: KeyKind) -> Option<(VKey, Vec<u8>)> {
+    let al = Aligned::copy_of(bytes);
+    let r = std::panic::catch_unwind(std::panic::AssertUnwindSafe(|| {
+        let row = Row::from_bytes_checked(al.bytes(), schema).ok()?;
+        let d = row.as_slice();
+        let blob = |v: &DataType| match v {
+            DataType::Blob(b) => b.data().ok().map(|x| x.to_vec()),
+            _ => None,
+        };
+        let (key, val) = match kind {
+            KeyKind::U64 => match d {
+                [DataType::BigUInt(k), v] => (VKey::U64(k.0), blob(v)?),
+                _ => return None,
+            },
+            KeyKind::I64 => match d {
+                [DataType::BigInt(k), v] => (VKey::I64(k.0), blob(v)?),
+                _ => return None,
+            },
+            KeyKind::Text => match d {
+                [k, v] => (VKey::Text(blob(k)?), blob(v)?),
+                _ => return None,
+            },
+            KeyKind::Comp => match d {
+                [DataType::BigInt(a), k, v] => (VKey::Comp(a.0, blob(k)?), blob(v)?),
+                _ => return None,
+            },
+        };
+        Some((key, val))
+    }));
+    r.ok().flatten()
+}
+
+/// The key columns alone, read the way `CellComparator::compare_keys` reads them (values are not touched, so a
+/// separator cell whose overflow chain was freed still yields the key the code would compare against).
+fn decode_key(bytes: &[u8], schema: &Schema, kind: KeyKind) -> Option<VKey> {
+    let al = Aligned::copy_of(bytes);
+    let r = std::panic::catch_unwind(std::panic::AssertUnwindSafe(|| {
+        let mut cursor = Tuple::keys_offset(schema.num_values());
+        let mut vals = Vec::new();
+        for col in schema.iter_keys() {
+            let (v, next) = col.datatype().deserialize(al.bytes(), cursor).ok()?;
+            vals.push(v.to_owned()?);
+            cursor = next;
+        }
+        let blob = |v: &DataType| match v {
+            DataType::Blob(b) => b.data().ok().map(|x| x.to_vec()),
+            _ => None,
+        };
+        match (kind, vals.as_slice()) {
+            (KeyKind::U64, [DataType::BigUInt(k)]) => Some(VKey::U64(k.0)),
+            (KeyKind::I64, [DataType::BigInt(k)]) => Some(VKey::I64(k.0)),
+            (KeyKind::Text, [k]) => Some(VKey::Text(blob(k)?)),
+            (KeyKind::Comp, [DataType::BigInt(a), k]) => Some(VKey::Comp(a.0, blob(k)?)),
+            _ => None,
+        }
+    }));
+    r.ok().flatten()
+}
+
+// ------------------------------------------------------------------------------------------------ dumping
+
+fn parse_overflow(bytes: &[u8]) -> Option<OvPageDump> {
+    if bytes.len() < OVERFLOW_HEADER_SIZE {
+        return None;
+    }
+    Some(OvPageDump {
+        self_id: read_u64(bytes, offset_of!(OverflowPageHeader, page_number)),
+        next: read_opt_u64(bytes, offset_of!(OverflowPageHeader, next)).ok()?,
+        num_bytes: read_u32(bytes, offset_of!(OverflowPageHeader, num_bytes)),
+    })
+}
+
+struct RawCell {
+    left_child: Option<u64>,
+    is_overflow: bool,
+    effective: Vec<u8>,
+    storage_size: usize,
+    offset: usize,
+}
+
+struct RawBtree {
+    dump: BtPageDump,
+    cells: Vec<RawCell>,
+}
+
+fn parse_btree(bytes: &[u8]) -> Option<RawBtree> {
+    if bytes.len() < BTREE_PAGE_HEADER_SIZE {
+        return None;
+    }
+    let right_child = read_opt_u64(bytes, offset_of!(BtreePageHeader, right_child)).ok()?;
+    let next = read_opt_u64(bytes, offset_of!(BtreePageHeader, next_sibling)).ok()?;
+    let prev = read_opt_u64(bytes, offset_of!(BtreePageHeader, previous_sibling)).ok()?;
+    let num_slots = u16::from_ne_bytes(
+        bytes[offset_of!(BtreePageHeader, num_slots)..offset_of!(BtreePageHeader, num_slots) + 2].try_into().unwrap(),
+    ) as usize;
+    let mut dump = BtPageDump {
+        right_child,
+        next,
+        prev,
+        num_slots,
+        free_space: read_u32(bytes, offset_of!(BtreePageHeader, free_space)),
+        free_space_ptr: read_u32(bytes, offset_of!(BtreePageHeader, free_space_ptr)),
+        self_id: read_u64(bytes, offset_of!(BtreePageHeader, page_number)),
+        well_formed: true,
+        cells: Vec::new(),
+    };
+    let data = &bytes[BTREE_PAGE_HEADER_SIZE..];
+    let mut cells = Vec::new();
+    if num_slots * 2 > data.len() {
+        dump.well_formed = false;
+        return Some(RawBtree { dump, cells });
+    }
+    for i in 0..num_slots {
+        let off = u16::from_ne_bytes(data[2 * i..2 * i + 2].try_into().unwrap()) as usize;
+        if off + CELL_HEADER_SIZE > data.len() || off < num_slots * 2 {
+            dump.well_formed = false;
+            break;
+        }
+        let hb = &data[off..off + CELL_HEADER_SIZE];
+        let left = read_opt_u64(hb, CELL_LEFT_OFF);
+        let size = read_u64(hb, CELL_SIZE_OFF) as usize;
+        let eff = read_u32(hb, CELL_EFF_OFF) as usize;
+        let ovf = hb[CELL_OVF_OFF];
+        let Ok(left_child) = left else {
+            dump.well_formed = false;
+            break;
+        };
+        if ovf > 1 || eff > size || off + CELL_HEADER_SIZE + size > data.len() {
+            dump.well_formed = false;
+            break;
+        }
+        let body = &data[off + CELL_HEADER_SIZE..off + CELL_HEADER_SIZE + eff];
+        cells.push(RawCell {
+            left_child,
+            is_overflow: ovf == 1,
+            effective: body.to_vec(),
+            storage_size: CELL_HEADER_SIZE + size + 2,
+            offset: off,
+        });
+    }
+    Some(RawBtree { dump, cells })
+}
+
+/// Dumps every page of the file behind `pager`. `roots` = (root page, key kind) of the trees living in the file: pages
+/// that are not cached are parsed as B-tree nodes iff a walk from one of the roots reaches them as nodes, and cell keys
+/// are decoded with the schema of the first root whose walk reaches the page (default: the first root's).
+pub fn dump_file(pager: &SharedPager, roots: &[(u64, KeyKind)]) -> FileDump {
+    debug_assert!(layout_self_test());
+    let (first_free, last_free, total_pages, free_counter, page_size) = {
+        let p = pager.read();
+        let (a, b, c, d) = p.verif_free_list_header();
+        (a, b, c, d, p.page_size())
+    };
+    // raw bytes of every page
+    let mut raw: BTreeMap<u64, (Option<u8>, Result<Vec<u8>, String>)> = BTreeMap::new();
+    for id in 1..total_pages {
+        let r = pager.write().verif_page_bytes(id);
+        match r {
+            Ok((k, b)) => raw.insert(id, (k, Ok(b))),
+            Err(e) => raw.insert(id, (None, Err(format!("{:?}", e.kind())))),
+        };
+    }
+    // which pages are tree nodes (by walk), and with which schema
+    let mut node_kind: BTreeMap<u64, KeyKind> = BTreeMap::new();
+    for (root, kind) in roots {
+        let mut queue = VecDeque::from([*root]);
+        let mut seen = BTreeSet::new();
+        while let Some(id) = queue.pop_front() {
+            if !seen.insert(id) || id == 0 || id >= total_pages {
+                continue;
+            }
+            let Some((ck, Ok(bytes))) = raw.get(&id) else { continue };
+            if *ck == Some(1) {
+                continue; // cached as overflow/free page: not a node now
+            }
+            let Some(rb) = parse_btree(bytes) else { continue };
+            node_kind.entry(id).or_insert(*kind);
+            if let Some(rc) = rb.dump.right_child {
+                for c in &rb.cells {
+                    if let Some(l) = c.left_child {
+                        queue.push_back(l);
+                    }
+                }
+                queue.push_back(rc);
+            }
+        }
+    }
+    let default_kind = roots.first().map(|r| r.1).unwrap_or(KeyKind::U64);
+    let is_overflow_page = |id: u64| -> Option<OvPageDump> {
+        let (ck, b) = raw.get(&id)?;
+        let b = b.as_ref().ok()?;
+        if *ck == Some(0) || (ck.is_none() && node_kind.contains_key(&id)) {
+            return None;
+        }
+        parse_overflow(b)
+    };
+    let mut pages = Vec::new();
+    for id in 1..total_pages {
+        let (ck, bytes) = raw.get(&id).unwrap();
+        let body = match bytes {
+            Err(e) => PageBody::Unreadable(e.clone()),
+            Ok(b) => {
+                let as_btree = *ck == Some(0) || (ck.is_none() && node_kind.contains_key(&id));
+                if as_btree {
+                    match parse_btree(b) {
+                        None => PageBody::Unreadable("btree-header".into()),
+                        Some(mut rb) => {
+                            let kind = node_kind.get(&id).copied().unwrap_or(default_kind);
+                            let schema = schema_for(kind);
+                            for c in &rb.cells {
+                                // reassemble exactly as `Reassembler::reassemble` would
+                                let mut chain = Vec::new();
+                                let mut chain_ok = true;
+                                let mut payload: Vec<u8>;
+                                if c.is_overflow {
+                                    if c.effective.len() < 8 {
+                                        chain_ok = false;
+                                        payload = c.effective.clone();
+                                    } else {
+                                        let cut = c.effective.len() - 8;
+                                        payload = c.effective[..cut].to_vec();
+                                        let mut cur = Some(u64::from_be_bytes(c.effective[cut..].try_into().unwrap()));
+                                        let mut steps = 0u64;
+                                        while let Some(pid) = cur {
+                                            chain.push(pid);
+                                            steps += 1;
+                                            if steps > total_pages {
+                                                chain_ok = false;
+                                                break;
+                                            }
+                                            match is_overflow_page(pid) {
+                                                Some(ov) => {
+                                                    if let Some((_, Ok(pb))) = raw.get(&pid) {
+                                                        let n = (ov.num_bytes as usize).min(pb.len() - OVERFLOW_HEADER_SIZE);
+                                                        payload.extend_from_slice(&pb[OVERFLOW_HEADER_SIZE..OVERFLOW_HEADER_SIZE + n]);
+                                                    }
+                                                    cur = ov.next;
+                                                }
+                                                None => {
+                                                    chain_ok = false;
+                                                    break;
+                                                }
+                                            }
+                                        }
+                                    }
+                                } else {
+                                    payload = c.effective.clone();
+                                }
+                                let decoded = decode_tuple(&payload, &schema, kind);
+                                rb.dump.cells.push(CellDump {
+                                    left_child: c.left_child,
+                                    is_overflow: c.is_overflow,
+                                    overflow_chain: chain,
+                                    chain_ok,
+                                    key: decode_key(&payload, &schema, kind),
+                                    payload: decoded.as_ref().map(|kv| (kv.1.len(), fnv64(&kv.1))),
+                                    payload_head: decoded.as_ref().map(|kv| {
+                                        kv.1.first().copied().unwrap_or(0) as u16 | ((kv.1.get(1).copied().unwrap_or(0) as u16) << 8)
+                                    }),
+                                    storage_size: c.storage_size,
+                                    offset: c.offset,
+                                });
+                            }
+                            PageBody::Btree(rb.dump)
+                        }
+                    }
+                } else {
+                    match parse_overflow(b) {
+                        Some(o) => PageBody::Overflow(o),
+                        None => PageBody::Unreadable("overflow-header".into()),
+                    }
+                }
+            }
+        };
+        pages.push(PageDump { id, cached_kind: *ck, body });
+    }
+    // free list walk
+    let mut free_walk = Vec::new();
+    let mut free_walk_ok = true;
+    let mut cur = first_free;
+    let mut seen = BTreeSet::new();
+    while let Some(id) = cur {
+        if !seen.insert(id) || free_walk.len() as u64 > total_pages {
+            free_walk_ok = false;
+            break;
+        }
+        free_walk.push(id);
+        match is_overflow_page(id) {
+            Some(o) => cur = o.next,
+            None => {
+                free_walk_ok = false;
+                break;
+            }
+        }
+    }
+    FileDump { page_size, total_pages, first_free, last_free, free_counter, free_walk, free_walk_ok, pages }
+}
+
+// ------------------------------------------------------------------------------------------------ pure helpers
+
+/// The constants the rebalancer derives from the page size.
+pub struct Geometry {
+    pub btree_header: usize,
+    pub overflow_header: usize,
+    pub cell_header: usize,
+    pub slot: usize,
+    pub usable: usize,
+    pub overflow_threshold: usize,
+    pub underflow_threshold: usize,
+    pub max_payload: usize,
+    pub ideal_max_payload: usize,
+}
+
+pub fn geometry(page_size: usize, min_keys: usize) -> Geometry {
+    Geometry {
+        btree_header: BTREE_PAGE_HEADER_SIZE,
+        overflow_header: OVERFLOW_HEADER_SIZE,
+        cell_header: CELL_HEADER_SIZE,
+        slot: std::mem::size_of::<crate::storage::cell::Slot>(),
+        usable: BtreePage::usable_space(page_size),
+        overflow_threshold: BtreePage::overflow_threshold(page_size),
+        underflow_threshold: BtreePage::underflow_threshold(page_size),
+        max_payload: BtreePage::max_payload_size_in(BtreePage::usable_space(page_size)),
+        ideal_max_payload: BtreePage::ideal_max_payload_size(page_size, min_keys),
+    }
+}
+
+fn cells_of_payload_sizes(payload_sizes: &[usize]) -> Vec<OwnedCell> {
+    payload_sizes.iter().map(|n| OwnedCell::new(&vec![0u8; *n])).collect()
+}
+
+/// (total_size, storage_size) of a cell whose payload has `n` bytes.
+pub fn cell_sizes(n: usize) -> (usize, usize) {
+    let c = OwnedCell::new(&vec![0u8; n]);
+    (c.total_size(), c.storage_size())
+}
+
+/// `Btree::split_cells` on cells with the given payload sizes: lengths of the two halves.
+pub fn split_cells_sizes(payload_sizes: &[usize]) -> (usize, usize) {
+    let (l, r) = Btree::<BtreeWriteAccessor>::verif_split_cells(cells_of_payload_sizes(payload_sizes));
+    (l.len(), r.len())
+}
+
+/// `Btree::compute_best_cell_distribution` on cells with the given payload sizes:
+/// (total size per page, number of cells per page).
+pub fn best_distribution_sizes(payload_sizes: &[usize], page_size: usize) -> (Vec<usize>, Vec<usize>) {
+    let cells: VecDeque<OwnedCell> = cells_of_payload_sizes(payload_sizes).into();
+    Btree::<BtreeWriteAccessor>::verif_best_distribution(&cells, page_size)
+}
+
+// silence "unused" for items only some engines use
+#[allow(dead_code)]
+fn _uses(_: &CellHeader, _: &OverflowPage) {}
